@@ -35,7 +35,10 @@
 (***************************************************************************)
 EXTENDS Integers, Sequences, FiniteSets, TLC, Json
 
-CONSTANTS Family,        \* "bsc" | "heco" | "pixie"
+CONSTANTS Family,        \* "bsc" | "heco" | "pixie" | "clique" | "bor"
+          Epoch,         \* clique only: headers with Num % Epoch = 0 are checkpoints (0 for the other families)
+          CliqueFixed,   \* clique only: FALSE = the code as it is (no signer-membership test in verifySeal, stale
+                         \* lastSeenHeight short-cut in snapshot()); TRUE = with patches/fix-C29-msc-*.patch applied
           Sets,          \* sequence of validator lists; Sets[1] = the genesis PrevValidators entry (in effect
                          \* before the genesis announcement), Sets[2] = list in the genesis extra data,
                          \* Sets[3..] = lists later headers may announce
@@ -77,7 +80,8 @@ Max(a, b) == IF a >= b THEN a ELSE b
 
 ASSUME /\ Len(Sets) >= 2
        /\ \A i \in 1..Len(Sets) : Size(i) >= 1 /\ \A j, k \in 1..Size(i) : Sets[i][j] = Sets[i][k] => j = k
-       /\ Family \in {"bsc", "heco", "pixie"}
+       /\ Family \in {"bsc", "heco", "pixie", "clique", "bor"}
+       /\ (Family = "clique") => (Epoch > 0 /\ G0 % Epoch = 0)
 
 (***************************************************************************)
 (* Implementation-shaped: getPrevHeightAndValidators                       *)
@@ -120,8 +124,53 @@ Continuous(pv, n, a) ==      \* "can not change epoch continuously"
     /\ \/ Family = "bsc"  /\ n - pv.phv.h <= Size(pv.pphv.set) \div 2
        \/ Family = "heco" /\ n - pv.phv.h <= Size(pv.phv.set) \div 2
 
+(***************************************************************************)
+(* Family "clique" (msc): the signer list is the one of the checkpoint      *)
+(* genesis (votes are outside the modelled domain: no header casts one);   *)
+(* checkpoint headers must repeat exactly that list, other headers carry   *)
+(* none; recent limit |V| div 2 + 1 over the parent and |V| div 2 - 1 more *)
+(* ancestors; in turn <=> position in the address-sorted list = Num % |V|. *)
+(* Two deviations of the code are modelled and named, so that the monitor, *)
+(* not the model, is what rejects them: (1) verifySeal never tests that    *)
+(* the sealing key IS a signer (CliqueFixed = FALSE): a key outside the    *)
+(* list is "out of turn" and passes with difficulty 1; (2) snapshot()      *)
+(* returns the height of the nearest checkpoint header as lastSeenHeight   *)
+(* when the same key sealed it, without searching the recent ancestors     *)
+(* (CliqueStaleLastSeen): that key may seal consecutive headers.           *)
+(***************************************************************************)
+CliqueOK(parent, s, d, a) ==
+    LET n  == Num(parent) + 1
+        \* snapshot(): the backward walk ends at the nearest checkpoint header (ancestor or the parent itself); if THAT
+        \* header was sealed by s, lastSeenHeight is its number and the function returns before looking at the recent
+        \* ancestors at all - otherwise the parent and |V| div 2 - 1 further ancestors are searched
+        cp == CHOOSE k \in 0..Len(parent) : /\ (G0 + k) % Epoch = 0
+                                            /\ \A j \in (k + 1)..Len(parent) : (G0 + j) % Epoch # 0
+        ls == IF ~CliqueFixed /\ SignerOf(Prefix(parent, cp)) = s THEN G0 + cp ELSE Look(parent, s, Size(2) \div 2)
+    IN /\ a = (IF n % Epoch = 0 THEN 2 ELSE 0)
+       /\ ~(ls > 0 /\ n < ls + (Size(2) \div 2) + 1)
+       /\ (CliqueFixed => Member(s, 2))
+       /\ d = (IF IndexOf(s, 2) = n % Size(2) THEN 2 ELSE 1)
+
+(***************************************************************************)
+(* Family "bor" (polygon), inside one sprint (no sprint boundary in the     *)
+(* modelled heights, so the validator set and its proposer are those of    *)
+(* the genesis snapshot; GenesisSigner names the proposer): the sealing    *)
+(* key must be in the set, there is no recent-signer rule (bor has none),  *)
+(* difficulty = |V| - succession, succession = distance from the proposer  *)
+(* in the address-ordered list; no validator bytes outside sprint ends.    *)
+(***************************************************************************)
+Succession(s) == (IndexOf(s, 2) - IndexOf(GenesisSigner, 2) + Size(2)) % Size(2)
+BorOK(parent, s, d, a) == a = 0 /\ Member(s, 2) /\ d = Size(2) - Succession(s)
+
+\* the named deviation of snapshot(): s sealed the nearest checkpoint header, which lies outside the recent window
+CliqueStaleLastSeen(parent, s) ==
+    LET cp == CHOOSE k \in 0..Len(parent) : /\ (G0 + k) % Epoch = 0
+                                            /\ \A j \in (k + 1)..Len(parent) : (G0 + j) % Epoch # 0
+    IN SignerOf(Prefix(parent, cp)) = s /\ Num(parent) + 1 >= G0 + cp + (Size(2) \div 2) + 1
+
 \* verdict for a well-formed header (parent stored, not yet known)
 ImplOK(parent, s, d, a) ==
+  IF Family = "clique" THEN CliqueOK(parent, s, d, a) ELSE IF Family = "bor" THEN BorOK(parent, s, d, a) ELSE
     LET n   == Num(parent) + 1
         pv  == PV(parent)
         v   == InTurnSet(pv, n)
@@ -138,7 +187,8 @@ Norm(sn, n) == IF sn.pend # 0 /\ n - sn.at > Size(sn.active) \div 2
                THEN [active |-> sn.pend, pend |-> 0, at |-> sn.at] ELSE sn
 RECURSIVE SnapAfter(_)
 SnapAfter(p) ==
-    IF p = <<>> THEN (IF Family = "bsc" THEN [active |-> 1, pend |-> 2, at |-> G0]
+    IF Family \in {"clique", "bor"} THEN [active |-> 2, pend |-> 0, at |-> G0]
+    ELSE IF p = <<>> THEN (IF Family = "bsc" THEN [active |-> 1, pend |-> 2, at |-> G0]
                                         ELSE [active |-> 2, pend |-> 0, at |-> G0])
     ELSE LET sn == Norm(SnapAfter(Parent(p)), Num(p))
          IN IF Last(p).a = 0 THEN sn
@@ -152,23 +202,25 @@ SealedWithin(p, s, w) == IF w <= 0 THEN FALSE
                          ELSE IF SignerOf(p) = s THEN TRUE
                          ELSE IF p = <<>> THEN FALSE
                          ELSE SealedWithin(Parent(p), s, w - 1)
-RecentRef(parent, s) == SealedWithin(parent, s, Size(VRef(parent)) \div 2)
+RecentRef(parent, s) == Family # "bor" /\ SealedWithin(parent, s, Size(VRef(parent)) \div 2)
 InTurnRef(parent, s) == IndexOf(s, VRef(parent)) = (Num(parent) + 1) % Size(VRef(parent))
+\* the difficulty the turn demands
+WantDiff(parent, s) == IF Family = "bor" THEN Size(2) - Succession(s) ELSE IF InTurnRef(parent, s) THEN 2 ELSE 1
 
 \* what C29 demands of a header that gets stored, clause by clause
-MonOf(parent, s, d, f) ==
+MonOf(parent, s, d, a, f) ==
     [par |-> parent \in stored,
-     fmt |-> f = "ok",
+     fmt |-> f = "ok" /\ (Family = "clique" => a = (IF (Num(parent) + 1) % Epoch = 0 THEN 2 ELSE 0)) /\ (Family = "bor" => a = 0),
      mem |-> Member(s, VRef(parent)),
      rec |-> RecentRef(parent, s),
-     dif |-> d = (IF InTurnRef(parent, s) THEN 2 ELSE 1)]
-Allowed(parent, s, d, f) == LET m == MonOf(parent, s, d, f) IN m.par /\ m.fmt /\ m.mem /\ ~m.rec /\ m.dif
+     dif |-> d = WantDiff(parent, s)]
+Allowed(parent, s, d, a, f) == LET m == MonOf(parent, s, d, a, f) IN m.par /\ m.fmt /\ m.mem /\ ~m.rec /\ m.dif
 
 PropHeaders == \A q \in stored : q # <<>> =>
     /\ Parent(q) \in stored
     /\ Member(Last(q).s, VRef(Parent(q)))
     /\ ~RecentRef(Parent(q), Last(q).s)
-    /\ Last(q).d = (IF InTurnRef(Parent(q), Last(q).s) THEN 2 ELSE 1)
+    /\ Last(q).d = WantDiff(Parent(q), Last(q).s)
 
 HeadSet == canon[cheight]
 PropCanon ==
@@ -200,7 +252,7 @@ AddHeader(q) ==
     LET n == Num(q)
         hd == CurHead
     IN /\ stored' = stored \cup {q}
-       /\ eph' = (q :> PV(Parent(q)).phv.at) @@ eph
+       /\ eph' = (q :> (IF Family \in {"clique", "bor"} THEN <<>> ELSE PV(Parent(q)).phv.at)) @@ eph
        /\ IF TD(q) > TD(hd)
           THEN LET \* last height (going down from n-1) whose assignment already is q's ancestor
                    K == CHOOSE k \in G0..(n - 1) :
@@ -226,24 +278,34 @@ Submit(x) ==
     LET out == Outcome(x)
         q   == Append(x.p, [s |-> x.s, d |-> x.d, a |-> x.a])
     IN /\ IF out = "store" THEN AddHeader(q) ELSE UNCHANGED <<stored, eph, canon, cheight>>
-       /\ LET step == [x |-> x, out |-> out, mon |-> MonOf(x.p, x.s, x.d, x.f),
+       /\ LET step == [x |-> x, out |-> out, mon |-> MonOf(x.p, x.s, x.d, x.a, x.f),
                        ch |-> cheight', canon |-> CanonSeq(canon', cheight'),
                        above |-> {k \in Heights : k > cheight' /\ canon'[k] # {}}]
           IN /\ hist' = Append(hist, step)
-             /\ (~EmitOn \/ PrintT(<<"EDGE", ToJson([h |-> hist, e |-> step])>>))
+             \* an edge carries the submissions that lead to its source state (each of them was stored, and is an
+             \* edge of its own elsewhere) and the full prediction for the submission under test
+             /\ (~EmitOn \/ PrintT(<<"EDGE", ToJson([h |-> [i \in 1..Len(hist) |-> hist[i].x], e |-> step])>>))
 
 \* model sanity, both directions: the implementation-shaped verdict (pointer walk, bounded look-back) coincides with
 \* the reference clauses, up to the announcement-spacing rule, which is not part of C29
-ModelEquiv == \A p \in stored : \A s \in Keys : \A d \in Diffs : \A a \in {0} \cup (3..Len(Sets)) :
+AnnChoices == {0} \cup (IF Family = "clique" THEN {2} ELSE {}) \cup (3..Len(Sets))
+ModelEquiv == \A p \in stored : \A s \in Keys : \A d \in Diffs : \A a \in AnnChoices :
                  Len(p) < MaxLen =>
-                    (ImplOK(p, s, d, a) <=> (Allowed(p, s, d, "ok") /\ ~Continuous(PV(p), Num(p) + 1, a)))
+                    (ImplOK(p, s, d, a) <=>
+                        IF Family = "clique"
+                        THEN /\ a = (IF (Num(p) + 1) % Epoch = 0 THEN 2 ELSE 0)
+                             /\ (~RecentRef(p, s) \/ (~CliqueFixed /\ CliqueStaleLastSeen(p, s)))
+                             /\ d = (IF InTurnRef(p, s) THEN 2 ELSE 1)
+                             /\ (CliqueFixed => Member(s, 2))
+                        ELSE IF Family = "bor" THEN Allowed(p, s, d, a, "ok")
+                        ELSE (Allowed(p, s, d, a, "ok") /\ ~Continuous(PV(p), Num(p) + 1, a)))
 
 \* candidate parents: every stored header that may still be extended, plus one unknown parent
 OrphanParent == <<[s |-> GenesisSigner, d |-> 1, a |-> 0]>>       \* never stored (genesis signer is recent)
 Parents == {p \in stored : Len(p) < MaxLen} \cup {OrphanParent}
 
 Candidates ==
-    {[p |-> p, s |-> s, d |-> d, a |-> a, f |-> "ok"] : p \in Parents, s \in Keys, d \in Diffs, a \in {0} \cup (3..Len(Sets))}
+    {[p |-> p, s |-> s, d |-> d, a |-> a, f |-> "ok"] : p \in Parents, s \in Keys, d \in Diffs, a \in AnnChoices}
     \cup {x \in [p : stored, s : Keys, d : Diffs, a : {0}, f : Defects] :
              Len(x.p) < MaxLen /\ ImplOK(x.p, x.s, x.d, 0)}
 
